@@ -42,6 +42,17 @@ static struct {
 	int derived, base_cleanup_count; dispatch_io_t base;   // channel made with dispatch_io_create_with_io from one that is closed at once
 } X;
 
+extern void _dispatch_iocntl(uint32_t param, uint64_t value);   // private tuning knobs of the I/O subsystem (io.c)
+static int io_chunk_pages;
+// tuning knobs, randomised per run: with the default 1 MiB chunk every operation of these workloads fits in one chunk
+// and the multi-chunk paths (and water marks above the chunk size) never run
+static void io_knobs(void) {
+	static const int pages[] = { 1, 1, 2, 4, 256 };
+	io_chunk_pages = pages[g_n(5)];
+	_dispatch_iocntl(1 /* CHUNK_PAGES */, (uint64_t)io_chunk_pages);
+	_dispatch_iocntl(2 /* LOW_WATER_CHUNKS */, g_chance(1, 3) ? 2 : 1);
+	_dispatch_iocntl(4 /* MAX_PENDING_IO_REQS */, g_chance(1, 3) ? (uint64_t)g_range(1, 3) : 6);
+}
 static const char *never_done_clause(void);
 static void c14_file_run(void);
 static void c14_conv_run(void);
@@ -279,6 +290,7 @@ static void c14_run(void) {
 	memset(&X, 0, sizeof X);
 	h_stepcap_clause = stepcap_clause;
 	bool big = RC.cfg & CFG_THOROUGH;
+	io_knobs();
 	if (g_chance(1, 6)) { c14_file_run(); return; }
 	if (g_chance(1, 8)) { c14_conv_run(); return; }
 	X.kind = (int)g_n(CH_N - 1);   // file channels: see c14_file below
@@ -298,12 +310,15 @@ static void c14_run(void) {
 		uint32_t r = g_n(100);
 		if (r < 55) { op->kind = X.is_read ? IO_READ : IO_WRITE; op->len = g_chance(1, 25) ? 0 : (size_t)g_range(1, big ? 20000 : 6000); if (X.is_read && g_chance(1, 6)) op->len = SIZE_MAX; }
 		else if (r < 68) op->kind = IO_BARRIER;
-		else if (r < 80) { op->kind = IO_SET_WATER; op->high = g_chance(2, 3) ? (size_t)g_range(1, 2000) : 0; op->low = g_chance(1, 2) ? (size_t)g_range(1, 1500) : 0; op->interval = g_chance(1, 3) ? g_range(300, 2000) : 0; }
+		else if (r < 80) { op->kind = IO_SET_WATER; op->high = g_chance(2, 3) ? (size_t)g_range(1, 2000) : 0; op->low = g_chance(1, 2) ? (size_t)g_range(1, 1500) : 0; op->interval = g_chance(1, 3) ? g_range(300, 2000) : 0;
+			// marks above the chunk size: low water between one and two chunks, high water between low and low + chunk
+			if (io_chunk_pages <= 4 && g_chance(1, 3)) { size_t ch = (size_t)io_chunk_pages * 4096; op->low = ch + (size_t)g_n((uint32_t)ch); op->high = op->low + (size_t)g_n((uint32_t)ch); } }
 		else if (r < 88) { op->kind = IO_PAUSE; op->pause = (uint64_t)g_range(5, 400) * USEC; }
 		else if (r < 94) op->kind = IO_CLOSE;
 		else op->kind = IO_STOP;
 		op->got = malloc(MAXBYTES);
 	}
+	h_sample("[chunk %d page(s)] ", io_chunk_pages);
 	h_sample("%s%s; handlers on a %s queue; peer: %zu bytes in chunks of %zu every %lu us%s\n", chn[X.kind], X.derived ? " (made with dispatch_io_create_with_io from a channel that is closed at once)" : "", X.hq_serial ? "serial" : "global", X.peer_total, X.peer_chunk, (unsigned long)(X.peer_pause / 1000),
 		X.is_read ? (X.peer_closes ? ", then closes" : ", stays open") : (X.peer_hangs_up ? ", then closes its reading end" : ", keeps reading"));
 	for (int i = 0; i < X.nops; i++) if (op_on(X.ops[i].idx)) {
